@@ -712,3 +712,18 @@ Theorem c02_code_write_prelude : forall a p cap,
 Proof. exact gen_write_prelude_equiv. Qed.
 Print Assumptions c02_code_write_headers.
 Print Assumptions c02_code_write_prelude.
+
+(* ================================================================== Call::analyze_request itself (translated from the source) *)
+(** [Call::analyze_request] (src/client/call.rs) -- runs once; adds [Host] from the URI when the caller gave none and the URI has
+    an authority; adds the body's framing header when the caller gave none; installs the writer the analysis chose; sets its flag only
+    when all of that succeeded -- is translated on every run by tools/rs2coq2.py (theories/Gen2.v, [gen_call_analyze_request]; the
+    analysis' result, the URI's host and the list of added headers are values, [set_header] is the model's reading of
+    AmendedRequest::set_header on that list) and proved EQUAL to the model's [analyze_request] (proofs/Gen2_equiv_call3.v). *)
+From Hoot Require Import GenLib Gen2.
+From Hoot.proofs Require Import Gen2_equiv_call3.
+Theorem c02_code_analyze_request : forall c,
+  gen_call_analyze_request (c_analyzed c) (am_added (c_req c)) (c_writer c)
+                           (lift_info3 (analyze (c_req c) (c_writer c) (c_skip c))) (host_of_call c)
+  = lift_call (analyze_request c).
+Proof. exact gen_call_analyze_request_eq. Qed.
+Print Assumptions c02_code_analyze_request.
